@@ -2,3 +2,18 @@
 //! Every ./check run analyses this crate with the same pipeline and fails if the rule that
 //! should fire on an item stays silent (positive controls, DESIGN section 9).
 #![allow(dead_code, unused)]
+
+// ---- C05.R1 hex writer controls
+pub fn hex_upper(value: u64) -> String { format!("{value:X}") }
+pub fn hex_padded(value: u64) -> String { format!("{value:016x}") }
+pub fn hex_prefixed(value: u64) -> String { format!("{value:#x}") }
+pub fn hex_narrow(value: u64) -> String { format!("{:x}", value as u32) }
+
+// ---- C05.R2 hex reader controls
+pub fn unhex_default(hex: &str) -> Result<u64, String> { Ok(u64::from_str_radix(hex, 16).unwrap_or(0)) }
+pub fn unhex_narrow(hex: &str) -> Result<u64, String> {
+    u32::from_str_radix(hex, 16).map(|v| v as u64).map_err(|e| format!("bad: {}", e))
+}
+pub fn unhex_trim(hex: &str) -> Result<u64, String> {
+    u64::from_str_radix(&hex[..hex.len().min(16)], 16).map_err(|e| format!("bad: {}", e))
+}
